@@ -23,7 +23,7 @@ EXHAUSTIVE = {"quick": False, "thorough": False}
 NSHARDS = {"quick": 16, "thorough": 16}
 THRESHOLDS = {
     "quick": {"repotests:ambient:solver:return?repotests:runs": 50, "c02:unreachable-raised": 1000, "c02:multi-route-pairs": 1000, "c02:adv-mazes": 100, "c02:self-query": 100,
-              "c02:exh-structures": 6541, "c02:from-targeted": 50, "ambient:solver:return": 20, "c02:array-args": 100, "c02:large-mazes": 60, "c02:side>127": 6, "c02:thin-cyclic-far-queries": 500, "c02:queried-object:TargetedLatticeMaze": 50, "c02:queried-object:stored-route-longer-than-shortest": 40, "c02:two-lane-mazes": 12, "c02:long-lived-objects": 8, "c02:same-bytes-other-shape": 100, "c02:generator-made-mazes": 50, "c02:generator-made-disconnected": 15,
+              "c02:exh-structures": 6541, "c02:from-targeted": 50, "ambient:solver:return": 20, "c02:array-args": 100, "c02:large-mazes": 60, "c02:side>127": 6, "c02:asked-again-after-caller-overwrote-the-answer": 5000, "c02:thin-cyclic-far-queries": 500, "c02:queried-object:TargetedLatticeMaze": 50, "c02:queried-object:stored-route-longer-than-shortest": 40, "c02:two-lane-mazes": 12, "c02:long-lived-objects": 8, "c02:same-bytes-other-shape": 100, "c02:generator-made-mazes": 50, "c02:generator-made-disconnected": 15,
               "hits:find_shortest_path": 1000},
 }
 THRESHOLDS["thorough"] = {**THRESHOLDS["quick"], "c02:exh-structures-13-17-edges": 2 * 8192 + 2 * 131072}
@@ -53,6 +53,29 @@ def _solve(ctx, maze, g, s, e, case, cache, as_array=False):
         res, exc = None, ex
     ctx.ev()
     oracles.check_c02(ctx, g, s, e, res, exc, case, dist_cache=cache)
+    # the route handed back belongs to the caller: it is converted in place (1-based x/y, reversed, blanked) - and every now and then the
+    # same pair is asked again straight away
+    _ASK[0] += 1
+    if isinstance(res, np.ndarray) and res.size and res.flags.writeable:
+        try:
+            if _ASK[0] % 2:
+                res[...] = res[::-1, ::-1] + 1
+            else:
+                res[...] = -1
+        except Exception:  # noqa: BLE001
+            pass
+        if _ASK[0] % 7 == 0:
+            try:
+                res2, exc2 = maze.find_shortest_path(s, e), None
+            except Exception as ex:  # noqa: BLE001
+                res2, exc2 = None, ex
+            ctx.tally("c02:asked-again-after-caller-overwrote-the-answer")
+            oracles.check_c02(ctx, g, s, e, res2, exc2, dict(case, asked_again=True), dist_cache=cache)
+            if isinstance(res2, np.ndarray) and res2.size and res2.flags.writeable:
+                res2[...] = 0
+
+
+_ASK = [0]
 
 
 def run(ctx):
